@@ -20,3 +20,16 @@ pub fn chunk_lengths(config: &ConfigFile, data: &[u8]) -> RusticResult<Vec<usize
     }
     Ok(v)
 }
+
+/// The `config` file as stored in one backend (cold part, hot part or a single store), decrypted
+/// with the master key and decoded without any of the adjustments `open` makes; `None` = no file.
+pub fn stored_config(
+    be: std::sync::Arc<dyn crate::backend::WriteBackend>,
+    key: &crate::repofile::MasterKey,
+) -> RusticResult<Option<ConfigFile>> {
+    use crate::backend::decrypt::{DecryptBackend, DecryptReadBackend};
+    let ids = be.list(crate::backend::FileType::Config)?;
+    let Some(id) = ids.first() else { return Ok(None) };
+    let dbe = DecryptBackend::new(be, key.key());
+    Ok(Some(dbe.get_file::<ConfigFile>(&crate::repofile::configfile::ConfigId::from(*id))?))
+}
